@@ -158,15 +158,18 @@ HasStaleTicket(s) == \E k \in DOMAIN s.tickets : ~IsOrder(s.qmap[s.tickets[k]])
 
 \* set of tags: {} = as the property says; {"KF-..."} = explained known finding; {"unexplained"}
 C04Tags(pre, c, r, post, faithful) ==
-  LET predicted == faithful # NoOrder /\ faithful.ret.t = r.t /\ LiveOrder(faithful.sh) = LiveOrder(post)
+  LET \* `faithful` = [ret, sh, pre]: result, post-state and pre-state of the model of the pinned design
+      \* run on the same calls from the start (never re-anchored on observations)
+      predicted == faithful # NoOrder /\ faithful.ret.t = r.t /\ LiveOrder(faithful.sh) = LiveOrder(post)
                    /\ (r.t = "match" => MakerQty(faithful.ret.txs) = MakerQty(r.txs))
+      mstale == faithful # NoOrder /\ (HasDupTicket(faithful.pre) \/ HasStaleTicket(faithful.pre) \/ HasDupTicket(faithful.sh))
       t1 == IF c.op = "match" /\ r.t = "match"
                /\ MakerQty(r.txs) # IdealMatch(LiveOrder(pre), pre.qmap, c.q, FALSE).txs
-            THEN (IF predicted /\ HasDupTicket(pre) THEN {"KF-C04-2"} ELSE {"unexplained"})
+            THEN (IF predicted /\ mstale THEN {"KF-C04-2"} ELSE {"unexplained"})
             ELSE {}
       t2 == IF LiveOrder(post) = IdealOrderAfter(pre, c, r, post) THEN {}
-            ELSE IF LiveOrder(post) = TailOrderAfter(pre, c, r, post) THEN (IF predicted THEN {"KF-C04-1"} ELSE {"unexplained"})
-            ELSE IF predicted /\ (HasDupTicket(pre) \/ HasStaleTicket(pre) \/ HasDupTicket(post)) THEN {"KF-C04-2"}
+            ELSE IF LiveOrder(post) = TailOrderAfter(pre, c, r, post) THEN {"KF-C04-1"}     \* judged on observations alone
+            ELSE IF predicted /\ mstale THEN {"KF-C04-2"}
             ELSE {"unexplained"}
   IN t1 \cup t2
 
